@@ -1,5 +1,6 @@
 """C06 — responses are framed: ';' between units, ',' between items, one terminator."""
 from sa import cfg as C
+from sa import paths as P
 from . import common as K
 
 CONFIGS_QUICK = ["A"]
@@ -187,8 +188,30 @@ def rule_f1b(ck, prog, S):
                         "the item separator is not guarded by output_count > 0: a ',' can precede the first item")
     if not calls:
         ck.violated("C06-F1b", K.site(wd, "comma", 0), K.loc(wd), "writeDelimiter writes nothing")
-    # the other direction: when output_count > 0 the ',' must be written
-    pg = S.pg(wd)
+    # the other direction: when output_count > 0 the ',' must be written - whatever else the context holds
+    st = K.site(wd, "comma-whenever-an-item-precedes", 0)
+    try:
+        wsums = P.summarize(wd)
+    except P.TooManyPaths:
+        wsums = []
+    missing = None
+    for ps in wsums:
+        if any(c.get("callee") == "writeData" for c in ps.calls):
+            continue
+        oc = None
+        for a, pol in ps.facts:
+            for x in a.walk():
+                if (x.get("path") or "").endswith("->output_count"):
+                    oc = x["path"]
+        none_yet = oc is not None and (K.holds_rel(ps.facts, oc, "<=", 0) or K.holds_rel(ps.facts, oc, "==", 0))
+        if not none_yet:
+            missing = missing or ps
+    if missing is not None:
+        ck.violated("C06-F1b", st, K.loc(wd, missing.ret_node) if missing.ret_node is not None else K.loc(wd),
+                    "writeDelimiter can return without the ',' although an item of this unit was already written (%s): two items of "
+                    "one response run together" % missing.describe()[-3:])
+    elif wsums:
+        ck.holds("C06-F1b", st, K.loc(wd), "every path without the ',' has output_count == 0")
     # block data: on every non-error path, test remaining == 0 and count on its true edge
     pg = S.pg(bd)
     incs = [n for n in bd.nodes.values() if is_count_inc(n)]
@@ -477,10 +500,10 @@ def rule_f3_f4(ck, prog, S):
     ck.analysed(parse, wnl, wd)
 
 
-def rule_transport(ck, prog, S):
+def rule_transport(ck, prog, S, which=(("flushData", "flush"), ("writeData", "write")), rule="C06-F3", why=None):
     """the transport wrappers (writeData, flushData) decide only on the presence of the callback: whether something is
     written / flushed is decided by their callers (F3), not by per-unit state inside the wrapper"""
-    for name, cb in (("flushData", "flush"), ("writeData", "write")):
+    for name, cb in which:
         f = prog.fn(name)
         if f is None:
             continue
@@ -488,7 +511,7 @@ def rule_transport(ck, prog, S):
         calls = [c for c in f.calls() if c.get("callee") is None and cb in (c.get("callee_path") or c.src)]
         st = K.site(f, "callback-guard", 0)
         if not calls:
-            ck.anchor_lost("C06-F3", "call of interface->%s in %s" % (cb, name))
+            ck.anchor_lost(rule, "call of interface->%s in %s" % (cb, name))
             continue
         extra = []
         for atom, pol in K.facts_at(S, f, calls[0]) or []:
@@ -506,12 +529,41 @@ def rule_transport(ck, prog, S):
             if names and names <= {p_["name"] for p_ in f.params if p_["type"].get("tk") == "int"}:
                 continue
             extra.append(atom.src)
+        # and the other way round: a path that does not reach the call-back found a pointer missing
+        if not extra:
+            try:
+                for ps in P.summarize(f):
+                    if any(c is calls[0] for c in ps.calls):
+                        continue
+                    missing = False
+                    for atom, pol in ps.facts:
+                        if isinstance(pol, tuple):
+                            continue
+                        a = atom.strip_all_casts()
+                        if a.get("tk") == "ptr" and pol is False:
+                            missing = True
+                        if a.k == "BinaryOperator" and a.get("op") in ("!=", "==") and \
+                                (a.child(0).strip_all_casts().get("tk") == "ptr" or a.child(1).strip_all_casts().get("tk") == "ptr") and \
+                                (pol is (a["op"] == "==")):
+                            missing = True
+                    intp = {p_["name"] for p_ in f.params if p_["type"].get("tk") == "int"}
+                    for atom, pol in ps.facts:
+                        if not isinstance(pol, tuple):
+                            names = {x.get("path") for x in atom.walk() if x.k == "DeclRefExpr"}
+                            if names and names <= intp:
+                                missing = True      # nothing to write: a test of the length handed in
+                    if not missing:
+                        extra.append("a path that skips it although every pointer is there (%s)" % ps.describe()[-3:])
+                        break
+            except P.TooManyPaths:
+                pass
         if extra:
-            ck.violated("C06-F3", st, K.loc(f, calls[0]),
-                        "%s calls the transport's %s only under %s: the decision depends on state of the current unit, so a message whose "
-                        "last unit produced nothing is terminated but not flushed (`*ESR?;*CLS`)" % (name, cb, extra))
+            ck.violated(rule, st, K.loc(f, calls[0]),
+                        "%s calls the transport's %s only under %s: %s" % (name, cb, extra, why or
+                        "the decision depends on state of the current unit, so a message whose last unit produced nothing is "
+                        "terminated but not flushed (`*ESR?;*CLS`)"))
         else:
-            ck.holds("C06-F3", st, K.loc(f, calls[0]), "%s is called whenever the callback exists" % cb)
+            ck.holds(rule, st, K.loc(f, calls[0]), "%s is called whenever the callback exists" % cb)
 
 
 def rule_f7(ck, prog):
